@@ -115,6 +115,10 @@ structure Parser where
 def Parser.advance (p : Parser) (n : Nat) : Parser :=
   { p with off := p.off + n, rest := p.rest.drop n }
 
+/-- the bytes that cannot occur in a scheme (uri.c:296-302): '/', '?', '#', '@', '[', ']' -/
+def isSchemeDelim (c : UInt8) : Bool :=
+  c == 47 || c == 63 || c == 35 || c == 64 || c == 91 || c == 93
+
 /-- `s_parse_scheme` -/
 def parseScheme (p : Parser) : Parser :=
   match memchr 58 p.rest with
@@ -122,10 +126,13 @@ def parseScheme (p : Parser) : Parser :=
   | some i =>
     -- colon is the last character, or the next one is not '/': this is not a scheme
     if (p.rest.drop (i + 1)).head? = some 47 then
-      let p1 := { p with uri := { p.uri with scheme := some ⟨p.off, i⟩ } }.advance i
-      -- str->len < 3 || str[0] != ':' || str[1] != '/' || str[2] != '/'
-      if p1.rest.take 3 = ([58, 47, 47] : Bytes) then { p1.advance 3 with state := .onAuthority }
-      else { p1 with state := .error }
+      -- a URI delimiter before the colon: the text has no scheme, nothing is consumed
+      if (p.rest.take i).any isSchemeDelim then { p with state := .onAuthority }
+      else
+        let p1 := { p with uri := { p.uri with scheme := some ⟨p.off, i⟩ } }.advance i
+        -- str->len < 3 || str[0] != ':' || str[1] != '/' || str[2] != '/'
+        if p1.rest.take 3 = ([58, 47, 47] : Bytes) then { p1.advance 3 with state := .onAuthority }
+        else { p1 with state := .error }
     else { p with state := .onAuthority }
 
 /-- the `userinfo "@"` part of `s_parse_authority`: returns userinfo, user, password and the
@@ -178,6 +185,12 @@ def parseAuthBody (p : Parser) (aoff : Nat) (a : Bytes) : Parser :=
   | .error _ => { p with uri := u, state := .error }
   | .ok (host, port) => { p with uri := { u with host := some host, port := port } }
 
+/-- `uri->authority = aws_byte_cursor_advance(str, end - str->ptr)` with the next state already
+chosen, followed by the rest of `s_parse_authority` -/
+def authorityUpTo (p : Parser) (i : Nat) (next : PState) : Parser :=
+  let p1 := { p with uri := { p.uri with authority := some ⟨p.off, i⟩ }, state := next }.advance i
+  parseAuthBody p1 p.off (p.rest.take i)
+
 /-- `s_parse_authority` -/
 def parseAuthority (p : Parser) : Parser :=
   match memchr 47 p.rest, memchr 63 p.rest with
@@ -187,12 +200,10 @@ def parseAuthority (p : Parser) : Parser :=
     let p1 := { p with uri := { p.uri with authority := some ⟨p.off, n⟩, path := none, pathAndQuery := none },
                        state := .finished }.advance n
     parseAuthBody p1 p.off p.rest
-  | some i, _ =>
-    let p1 := { p with uri := { p.uri with authority := some ⟨p.off, i⟩ }, state := .onPath }.advance i
-    parseAuthBody p1 p.off (p.rest.take i)
-  | none, some j =>
-    let p1 := { p with uri := { p.uri with authority := some ⟨p.off, j⟩ }, state := .onQuery }.advance j
-    parseAuthBody p1 p.off (p.rest.take j)
+  -- the authority ends at whichever of '/' and '?' comes first
+  | some i, none => authorityUpTo p i .onPath
+  | some i, some j => if i < j then authorityUpTo p i .onPath else authorityUpTo p j .onQuery
+  | none, some j => authorityUpTo p j .onQuery
 
 /-- `s_parse_path` -/
 def parsePath (p : Parser) : Parser :=
